@@ -453,3 +453,240 @@ func (c *Ctx) pairing(fns []*ssa.Function, entryHeld map[string]map[lockKey]stri
 		c.undecided("lock operations | floor", "", fmt.Sprintf("found %d lock acquisitions in the analysed functions, the rule table requires at least %d", total, minOps))
 	}
 }
+
+// ---- lock order ----
+
+const lockOrderDoc = "no two goroutines can wait for each other's mutex: taking a mutex B while holding a mutex A (directly, or by calling a function that takes B) orders A before B; over the whole module these orderings contain no cycle in which a writer takes part (two sites that each look fine alone - a caller keeping its mutex across a call, a reader of another subsystem's state - are what closes such a cycle)"
+
+type lockEdge struct {
+	from, to lockKey
+	fromMode string // mode in which from is held
+	toRead   bool   // to is taken in read mode
+	at       ssa.Instruction
+	fn       *ssa.Function
+}
+
+// lockOrder: see lockOrderDoc. The locks held at a point are the must-held
+// locksets of the lockset engine (a lock held on only some paths to a call is
+// not seen: the rule reports cycles, it does not prove their absence).
+func (c *Ctx) lockOrder() {
+	res := c.lockResults()
+	g := c.graph()
+	// locks a function may take, itself or in what it calls
+	takes := map[*ssa.Function]map[lockKey]bool{}
+	direct := map[*ssa.Function]map[lockKey]bool{}
+	for _, fn := range c.P.Funcs {
+		m := map[lockKey]bool{}
+		ir.Instrs(fn, func(in ssa.Instruction) {
+			if _, isDefer := in.(*ssa.Defer); isDefer {
+				return
+			}
+			if op, ok := c.lockOpOf(in); ok && op.known && op.acq && !op.wait {
+				m[lockKey{op.key.f}] = op.read || m[lockKey{op.key.f}]
+			}
+		})
+		direct[fn] = m
+	}
+	readOnly := map[*ssa.Function]map[lockKey]bool{} // taken in read mode only
+	for fn, m := range direct {
+		t, r := map[lockKey]bool{}, map[lockKey]bool{}
+		for k, rd := range m {
+			t[k] = true
+			r[k] = rd
+		}
+		takes[fn], readOnly[fn] = t, r
+	}
+	for changed := true; changed; {
+		changed = false
+		for _, fn := range c.P.Funcs {
+			for _, callee := range g.out[fn] {
+				for k := range takes[callee] {
+					if !takes[fn][k] {
+						takes[fn][k] = true
+						readOnly[fn][k] = readOnly[callee][k]
+						changed = true
+					} else if readOnly[fn][k] && !readOnly[callee][k] {
+						readOnly[fn][k] = false
+						changed = true
+					}
+				}
+			}
+		}
+	}
+	var edges []lockEdge
+	for _, fn := range c.P.Funcs {
+		lr := res[fn]
+		if lr == nil {
+			continue
+		}
+		fn := fn
+		ir.Instrs(fn, func(in ssa.Instruction) {
+			held := lr.mustHold[in]
+			if len(held) == 0 {
+				return
+			}
+			if _, isDefer := in.(*ssa.Defer); isDefer {
+				return
+			}
+			if _, isGo := in.(*ssa.Go); isGo {
+				return
+			}
+			if op, ok := c.lockOpOf(in); ok {
+				if op.known && op.acq && !op.wait {
+					for h, mode := range held {
+						if h.f != op.key.f {
+							edges = append(edges, lockEdge{h, lockKey{op.key.f}, mode, op.read, in, fn})
+						}
+					}
+				}
+				return
+			}
+			cc := ir.CallOf(in)
+			if cc == nil {
+				return
+			}
+			cal := ir.Resolve(cc)
+			var callees []*ssa.Function
+			if cal.Fn != nil {
+				callees = c.srcFunc(cal.Fn)
+			} else if cc.IsInvoke() {
+				callees = c.implsOf(cc.Method.Origin())
+			}
+			for _, callee := range callees {
+				for k := range takes[callee] {
+					for h, mode := range held {
+						if h.f != k.f {
+							edges = append(edges, lockEdge{h, k, mode, readOnly[callee][k], in, fn})
+						}
+					}
+				}
+			}
+		})
+	}
+	// cycles of length two and three among distinct locks, with a writer
+	adj := map[lockKey][]lockEdge{}
+	for _, e := range edges {
+		adj[e.from] = append(adj[e.from], e)
+	}
+	writer := func(es ...lockEdge) bool {
+		for _, e := range es {
+			if e.fromMode == "W" || !e.toRead {
+				return true
+			}
+		}
+		return false
+	}
+	seen := map[string]bool{}
+	var bad []string
+	var sites []ssa.Instruction
+	desc := func(e lockEdge) string {
+		m := "Lock"
+		if e.toRead {
+			m = "RLock"
+		}
+		return fmt.Sprintf("%s(%s) held while %s.%s is taken at %s in %s", c.on(e.from.f), e.fromMode, c.on(e.to.f), m, c.at(e.at), c.nm(e.fn))
+	}
+	for _, e1 := range edges {
+		for _, e2 := range adj[e1.to] {
+			if e2.to == e1.from && writer(e1, e2) {
+				a, b := c.on(e1.from.f), c.on(e1.to.f)
+				if a > b {
+					a, b = b, a
+				}
+				key := a + "/" + b
+				if !seen[key] {
+					seen[key] = true
+					bad = append(bad, "cycle "+c.on(e1.from.f)+" -> "+c.on(e1.to.f)+" -> "+c.on(e1.from.f)+": "+desc(e1)+"; "+desc(e2))
+					sites = append(sites, e1.at, e2.at)
+				}
+			}
+			for _, e3 := range adj[e2.to] {
+				if e3.to == e1.from && e2.to != e1.from && e2.to != e1.to && writer(e1, e2, e3) {
+					ks := []string{c.on(e1.from.f), c.on(e1.to.f), c.on(e2.to.f)}
+					sort.Strings(ks)
+					key := strings.Join(ks, "/")
+					if !seen[key] {
+						seen[key] = true
+						bad = append(bad, "cycle over "+key+": "+desc(e1)+"; "+desc(e2)+"; "+desc(e3))
+						sites = append(sites, e1.at, e2.at, e3.at)
+					}
+				}
+			}
+		}
+	}
+	// a mutex taken again while it is held: certain self-deadlock, except
+	// read-inside-read, which deadlocks as soon as a writer queues in between
+	// (any Lock of that mutex anywhere in the module)
+	hasWriter := map[*types.Var]bool{}
+	for _, m := range direct {
+		for k, rd := range m {
+			if !rd {
+				hasWriter[k.f] = true
+			}
+		}
+	}
+	for _, fn := range c.P.Funcs {
+		lr := res[fn]
+		if lr == nil {
+			continue
+		}
+		fn := fn
+		ir.Instrs(fn, func(in ssa.Instruction) {
+			held := lr.mustHold[in]
+			if len(held) == 0 {
+				return
+			}
+			switch in.(type) {
+			case *ssa.Defer, *ssa.Go:
+				return
+			}
+			report := func(k lockKey, mode string, read bool, how string) {
+				if read && mode == "R" && !hasWriter[k.f] {
+					return
+				}
+				key := "self/" + c.on(k.f) + "/" + c.nm(fn) + "/" + how
+				if seen[key] {
+					return
+				}
+				seen[key] = true
+				m := "Lock"
+				if read {
+					m = "RLock"
+				}
+				bad = append(bad, fmt.Sprintf("%s is taken again (%s, %s) at %s in %s while it is already held (%s): a writer queued between the two acquisitions blocks both", c.on(k.f), m, how, c.at(in), c.nm(fn), mode))
+				sites = append(sites, in)
+			}
+			if op, ok := c.lockOpOf(in); ok {
+				if op.known && op.acq && !op.wait {
+					if mode, isHeld := held[lockKey{op.key.f}]; isHeld {
+						report(lockKey{op.key.f}, mode, op.read, "directly")
+					}
+				}
+				return
+			}
+			cc := ir.CallOf(in)
+			if cc == nil {
+				return
+			}
+			cal := ir.Resolve(cc)
+			if cal.Fn == nil {
+				return
+			}
+			for _, callee := range c.srcFunc(cal.Fn) {
+				// only a method called on the same receiver can mean the same
+				// mutex object (the key names the field, not the object)
+				if len(cc.Args) == 0 || len(fn.Params) == 0 || ir.Strip(cc.Args[0]) != ssa.Value(fn.Params[0]) {
+					continue
+				}
+				for k := range takes[callee] {
+					if mode, isHeld := held[k]; isHeld {
+						report(k, mode, readOnly[callee][k], "in "+c.nm(callee))
+					}
+				}
+			}
+		})
+	}
+	sort.Strings(bad)
+	c.R.CallSites += len(edges)
+	c.verdict(len(bad) == 0 && len(edges) >= 1, "module | mutex acquisition order is acyclic", "", fmt.Sprintf("%d ordered pair(s) of mutexes (A held while B is taken); no cycle of length 2 or 3 with a writer", len(edges)), join(bad), c.ats(sites)...)
+}
